@@ -41,13 +41,18 @@ def strategy(tier):
 
 
 def check_case(case):
+    with trav.caching(case.get("cache")):
+        return _check_case(case)
+
+
+def _check_case(case):
     from edgegraph.traversal import breadthfirst as B
     from edgegraph.traversal import depthfirst as D
 
     S = trav.Setup(case)
     verdict, R = S.expectation()
     n = len(S.vs)
-    classes = {f"dir{S.d}", f"unk{S.u}", "universe" if S.uni is not None else "no-universe", "expect-" + verdict}
+    classes = {"caching-on" if case.get("cache") else "caching-off", f"dir{S.d}", f"unk{S.u}", "universe" if S.uni is not None else "no-universe", "expect-" + verdict}
     outs = {}
     for name, fn, gen in (
         ("bft", B.bft, B.ibft),
